@@ -292,6 +292,39 @@ def switch_independence(ctx, nin):
                           {"kind": "input", "database": "phreeqc.dat", "input_text": texts[i], "observed": d, "expected": "identical tables with all sinks off and all sinks on"})
 
 
+def dump_scenarios(ctx, wexe, n):
+    """both dump sinks on from the creation of the instance, one file name: after every call the file on disk and the dump string are
+    identical, whatever mixture of DUMP / DUMP -append blocks the calls contain (several per call)"""
+    for k in range(n):
+        ops = [["spy"], ["c", "LoadDatabase", 0, os.path.join(vlib.DB, "phreeqc.dat")], ["c", "SetDumpFileOn", 0, 1], ["c", "SetDumpStringOn", 0, 1], ["c", "SetDumpFileName", 0, "d.txt"]]
+        marks, texts = [], []
+        for c in range(ctx.rng.randint(2, 4)):
+            t = ""
+            for b in range(ctx.rng.randint(1, 3)):
+                t += "SOLUTION %d\n Na %d\n Cl %d\nDUMP\n -solution %d\n%sEND\n" % (b + 1, c + 1, b + 1, b + 1, " -append true\n" if ctx.rng.random() < 0.6 else "")
+            texts.append(t)
+            ops.append(["c", "RunString", 0, t])
+            ops.append(["obs", 0])
+            ops.append(["file", "d.txt"])
+            marks.append(len(ops) - 2)
+        with vlib.scratch("c09d") as d:
+            res, rc, err = wrap.run_script(wexe, ops, d, timeout=120)
+        ctx.case("dump:" + vlib.key_of(texts), sample={"dump scenario": texts} if k == 0 else None)
+        if rc != 0 or any(r is None for r in res):
+            ctx.violation("dump:driver", "driver died in a dump scenario: %s" % err[-200:], {"kind": "history", "calls": texts})
+            continue
+        for ci, m in enumerate(marks):
+            ds, df = res[m]["dump"], res[m + 1]
+            if not df["exists"] or df["content"] != ds:
+                ctx.violation("dump_file_vs_string:" + vlib.key_of(texts), "call %d: dump file and dump string are both on since the instance was created but differ (file %d bytes, string %d bytes)" % (ci, len(df["content"]), len(ds)),
+                              {"kind": "history", "calls": texts, "observed": {"file": df["content"][:300], "string": ds[:300]}})
+                break
+            ls = res[m]["nlines"]["dump"]
+            if ls != len(lines_of(ds)):
+                ctx.violation("dump_lines:" + vlib.key_of(texts), "call %d: GetDumpStringLineCount = %d but the dump string has %d lines" % (ci, ls, len(lines_of(ds))), {"kind": "history", "calls": texts})
+                break
+
+
 def run(ctx):
     vlib.coq_stage(ctx, "Props/Properties_C09.vo")
     wexe = wrap.build_wdrive()
@@ -335,6 +368,7 @@ def run(ctx):
     dist["switch_sets"] = len(dist["switch_sets"])
     ctx.extra["input_distribution"] = dist
     switch_independence(ctx, ctx.n(25, 400))
+    dump_scenarios(ctx, wexe, ctx.n(12, 200))
     ctx.trusted += ["extraction: ExtrOcamlBasic + ExtrOcamlString only; OCaml driver ocaml/wrapper_driver.ml", "Spy subclass records the engine->PHRQ_io calls faithfully",
                     "dump stream: compared file vs string on the implementation only (not in the routing model)"]
     ctx.notes += ["hypothesis of C09_file_eq_string_selected (punch stream open iff file switch on; no re-opening after content) is checked on every recorded stream; a re-opening is the recorded finding F8"]
